@@ -239,7 +239,23 @@ impl FromStr for ServiceAddr {
             "CS" => ServiceAddr::CONTROL,
             "DS" => ServiceAddr::DAEMON,
             "Wildcard" => ServiceAddr::WILDCARD,
-            _ => return Err(ERR),
+            // `<SVC:0xhhhh>`: the form `Display` uses for service numbers without a name.
+            _ => {
+                let hex = service
+                    .strip_prefix("<SVC:0x")
+                    .and_then(|rest| rest.strip_suffix('>'))
+                    .ok_or(ERR)?;
+                let is_lower_hex = |b: &u8| b.is_ascii_digit() || (b'a'..=b'f').contains(b);
+                if hex.len() != 4 || !hex.as_bytes().iter().all(is_lower_hex) {
+                    return Err(ERR);
+                }
+                let value = u16::from_str_radix(hex, 16).map_err(|_| ERR)?;
+                if value & ServiceAddr::MULTICAST_FLAG != 0 {
+                    // multicast is spelled with the `_M` suffix
+                    return Err(ERR);
+                }
+                ServiceAddr(value)
+            }
         };
 
         match suffix {
